@@ -106,6 +106,42 @@ func c17Operator(r *Run, c *Case, rng *Rng) {
 		return
 	}
 	op.Shutdown() // returns when every queue shows "stop" or after WaitQueuesTimeout (shortened by the suite)
+	// A queue that shows "stop" has no hook process any more (the handler runs the hook synchronously, the
+	// worker sets the status after its last handler returned): a line its hooks write after the status was
+	// seen is an execution after the worker's exit. For a queue that does not show "stop" yet, the marker of
+	// the one task it had picked may come arbitrarily late on a loaded machine (no bound asserted).
+	seen := map[int]bool{0: true}
+	for _, h := range hooks {
+		seen[h.queueNo] = true
+	}
+	var want []int
+	for k := 0; k <= nq; k++ {
+		if seen[k] {
+			want = append(want, k)
+		}
+	}
+	qname := func(k int) string {
+		if k == 0 {
+			return "main"
+		}
+		return fmt.Sprintf("q%d", k)
+	}
+	exitPos := map[int]int{} // queue -> number of log lines when it was first seen stopped
+	observeStops := func() bool {
+		all := true
+		for _, k := range want {
+			if _, ok := exitPos[k]; ok {
+				continue
+			}
+			if q := op.TaskQueues.GetByName(qname(k)); q != nil && q.GetStatus() == "stop" {
+				exitPos[k] = len(readLog(logFile))
+			} else {
+				all = false
+			}
+		}
+		return all
+	}
+	observeStops()
 	appendLine := func(l string) {
 		f, err := os.OpenFile(logFile, os.O_APPEND|os.O_CREATE|os.O_WRONLY, 0o644)
 		if err == nil {
@@ -122,31 +158,35 @@ func c17Operator(r *Run, c *Case, rng *Rng) {
 		}
 	}
 	_ = os.Remove(filepath.Join(dir, "block-h1")) // the current handler returns
-	allStopped := waitFor(func() bool {
-		all := true
-		op.TaskQueues.Iterate(func(q *queue.TaskQueue) {
-			if q.GetStatus() != "stop" {
-				all = false
-			}
-		})
-		return all
-	}, 20*time.Second)
+	allStopped := waitFor(observeStops, 20*time.Second)
 	if !allStopped {
 		hangs.Add(1)
+		time.Sleep(300 * time.Millisecond) // what a worker that is still alive starts meanwhile is evidence
 	}
-	time.Sleep(30 * time.Millisecond) // a hook started now would have written its marker by then
-	// trace: executions before STOP, the stop mark, executions after it, exits
+	time.Sleep(30 * time.Millisecond)
+	// trace: executions, the stop mark, the exits where they were observed
 	var ev []string
 	var qs []int
-	seen := map[int]bool{}
+	putExits := func(upTo int) {
+		for _, k := range want {
+			if p, ok := exitPos[k]; ok && p <= upTo {
+				ev = append(ev, fmt.Sprintf("x%d", k+1))
+				delete(exitPos, k)
+			}
+		}
+	}
 	n := 0
-	for _, l := range readLog(logFile) {
+	lines := readLog(logFile)
+	stopPut := false
+	for i, l := range lines {
+		putExits(i)
 		f := strings.Fields(l)
 		if len(f) != 3 {
 			continue
 		}
 		if f[0] == "STOP" {
 			ev = append(ev, "S")
+			stopPut = true
 			continue
 		}
 		for _, h := range hooks {
@@ -158,19 +198,14 @@ func c17Operator(r *Run, c *Case, rng *Rng) {
 			}
 		}
 	}
-	for _, h := range hooks {
-		seen[h.queueNo] = true
+	if !stopPut {
+		ev = append(ev, "S")
 	}
-	seen[0] = true
-	for k := 0; k <= nq; k++ {
-		if seen[k] {
-			qs = append(qs, k+1)
-			if allStopped {
-				ev = append(ev, fmt.Sprintf("x%d", k+1))
-			}
-		}
+	putExits(len(lines) + 1)
+	for _, k := range want {
+		qs = append(qs, k+1)
 	}
-	c.Oracle(fmt.Sprintf("aftershutdown q=%s ev=%s", joinInts(qs), joinStrs(ev)))
+	c.Oracle(fmt.Sprintf("weakstop q=%s ev=%s", joinInts(qs), joinStrs(ev)))
 	c.Oracle(fmt.Sprintf("terminated q=%s ev=%s", joinInts(qs), joinStrs(ev)))
 	c.Nontrivial = true
 	if midRun {
